@@ -110,10 +110,23 @@ type world struct {
 	f     front
 	seen  *url.URL
 	calls int
+	pool  map[string]bool // reference membership: what the add/remove calls made so far define
+}
+
+func (w *world) upsert(u *url.URL, opts ...roundrobin.ServerOption) {
+	if err := w.f.UpsertServer(u, opts...); err == nil {
+		w.pool[ident(u)] = true
+	}
+}
+
+func (w *world) remove(u *url.URL) {
+	if err := w.f.RemoveServer(u); err == nil {
+		delete(w.pool, ident(u))
+	}
 }
 
 func newWorld(rebalancer bool, enc encoding) *world {
-	w := &world{}
+	w := &world{pool: map[string]bool{}}
 	h := http.HandlerFunc(func(rw http.ResponseWriter, r *http.Request) {
 		w.calls++
 		c := *r.URL
@@ -169,14 +182,8 @@ func (w *world) do(c *http.Cookie) result {
 	return r
 }
 
-func (w *world) member(id string) bool {
-	for _, u := range w.f.Servers() {
-		if ident(u) == id {
-			return true
-		}
-	}
-	return false
-}
+// member consults the reference membership, not Servers() (which is part of what is being checked).
+func (w *world) member(id string) bool { return w.pool[id] }
 
 // cookieFor returns a cookie minted by the balancer for server id (or nil).
 func (w *world) cookieFor(id string) *http.Cookie {
@@ -304,9 +311,9 @@ func session(c ctx) {
 		return
 	}
 	id := ident(su)
-	w.f.UpsertServer(su)
+	w.upsert(su)
 	for _, o := range others(c.server) {
-		w.f.UpsertServer(mustURL(o))
+		w.upsert(mustURL(o))
 	}
 	c.rep.Count("sessions")
 	ck := w.cookieFor(id)
@@ -322,15 +329,15 @@ func session(c ctx) {
 		w.do(nil) // unrelated request advances the rotation
 	}
 	// regardless of weights
-	w.f.UpsertServer(mustURL(others(c.server)[0]), roundrobin.Weight(5))
+	w.upsert(mustURL(others(c.server)[0]), roundrobin.Weight(5))
 	if !c.expectStuck(w, ck, id, "after another server was re-weighted to 5", nil) {
 		return
 	}
-	w.f.UpsertServer(su, roundrobin.Weight(0))
+	w.upsert(su, roundrobin.Weight(0))
 	if !c.expectStuck(w, ck, id, "after the server itself was re-weighted to 0", nil) {
 		return
 	}
-	w.f.UpsertServer(su, roundrobin.Weight(1))
+	w.upsert(su, roundrobin.Weight(1))
 	// expiry
 	if c.enc.ttl > 0 {
 		clock.Advance(c.enc.ttl - time.Second)
@@ -355,11 +362,11 @@ func session(c ctx) {
 	if !c.expectBalanced(w, nil, "no cookie", nil) {
 		return
 	}
-	w.f.RemoveServer(su)
+	w.remove(su)
 	if !c.expectBalanced(w, ck, "cookie names a server that was removed", nil) {
 		return
 	}
-	w.f.UpsertServer(su)
+	w.upsert(su)
 	c.expectStuck(w, ck, id, "after the server was re-added", nil)
 }
 
@@ -382,8 +389,8 @@ func poolChanges(c ctx) {
 		if len(seq) > 0 {
 			clock.Freeze(base)
 			w := newWorld(c.rebalancer, c.enc)
-			w.f.UpsertServer(su)
-			w.f.UpsertServer(mustURL("http://other:80/o"))
+			w.upsert(su)
+			w.upsert(mustURL("http://other:80/o"))
 			ck := w.cookieFor(id)
 			if ck == nil {
 				return
@@ -393,21 +400,21 @@ func poolChanges(c ctx) {
 				names = append(names, ops[o])
 				switch o {
 				case 0:
-					w.f.UpsertServer(extraSrv)
+					w.upsert(extraSrv)
 				case 1:
-					w.f.RemoveServer(extraSrv)
+					w.remove(extraSrv)
 				case 2:
 					if w.member(id) {
-						w.f.UpsertServer(su, roundrobin.Weight(0))
+						w.upsert(su, roundrobin.Weight(0))
 					}
 				case 3:
 					if w.member(id) {
-						w.f.UpsertServer(su, roundrobin.Weight(3))
+						w.upsert(su, roundrobin.Weight(3))
 					}
 				case 4:
-					w.f.RemoveServer(su)
+					w.remove(su)
 				case 5:
-					w.f.UpsertServer(su)
+					w.upsert(su)
 				case 6:
 					w.do(nil)
 				}
@@ -450,8 +457,8 @@ func mutations(c ctx) {
 	w := newWorld(c.rebalancer, c.enc)
 	su := mustURL(c.server)
 	id := ident(su)
-	w.f.UpsertServer(su)
-	w.f.UpsertServer(mustURL("http://other:80/o"))
+	w.upsert(su)
+	w.upsert(mustURL("http://other:80/o"))
 	ck := w.cookieFor(id)
 	if ck == nil {
 		return
